@@ -96,6 +96,11 @@ func c02Check(w *mon.W, words []uint64, pos *[]int32, cov *c02Cov) bool {
 		extra["ones"] = n
 		return extra
 	}
+	if overlapI32(sidx2, ridx) {
+		w.Fail("IndexSelect32R64/the-two-results-share-memory", d(mon.D{"len_sidx": len(sidx2), "cap_sidx": cap(sidx2), "len_ridx": len(ridx), "cap_ridx": cap(ridx),
+			"what": "the select index and the rank index returned by one call overlap within their capacities: an append to one overwrites the other"}))
+		return false
+	}
 	if len(sidx) != (n+31)/32 || len(sidx2) != (n+31)/32 || len(ridx) != nw+1 {
 		w.Fail("Index/shape", d(mon.D{"len_sidx": len(sidx), "len_sidx_r64": len(sidx2), "len_ridx": len(ridx), "expected_sidx": (n + 31) / 32, "expected_ridx": nw + 1}))
 		return false
@@ -126,6 +131,16 @@ func c02Check(w *mon.W, words []uint64, pos *[]int32, cov *c02Cov) bool {
 		return c02Finish(w, guard, ret, sidx, sidx2, ridx, nw)
 	}
 	end := int32(64 * nw)
+	// the queries get the indexes as a caller may hold them: views into a larger array, poison around them
+	qS, gS := dirtyI32(sidx)
+	qS2, gS2 := dirtyI32(sidx2)
+	qR, gR := dirtyI32(ridx)
+	hS, hS2, hR := hashI32(qS), hashI32(qS2), hashI32(qR)
+	defer func() {
+		if !gS() || !gS2() || !gR() || hashI32(qS) != hS || hashI32(qS2) != hS2 || hashI32(qR) != hR {
+			w.Fail("Select/wrote-to-or-outside-the-index-argument", d(mon.D{"what": "an index passed to Select32/Select32R64, or the poison next to it, changed during the queries"}))
+		}
+	}()
 	for i := 0; i < n; i++ {
 		ea := P[i]
 		eb := end
@@ -133,9 +148,9 @@ func c02Check(w *mon.W, words []uint64, pos *[]int32, cov *c02Cov) bool {
 			eb = P[i+1]
 		}
 		w.Op, w.A = "Select32", int64(i)
-		a1, b1 := bitmap.Select32(words, sidx, int32(i))
+		a1, b1 := bitmap.Select32(words, qS, int32(i))
 		w.Op = "Select32R64"
-		a2, b2 := bitmap.Select32R64(words, sidx2, ridx, int32(i))
+		a2, b2 := bitmap.Select32R64(words, qS2, qR, int32(i))
 		if a1 != ea || b1 != eb {
 			cls := "ith"
 			if a1 == ea {
